@@ -922,6 +922,11 @@ class Exec:
                     self.owner_frame(n, fr).locals.pop(n, None)
                 continue
             old = pre[n]
+            if "$frame_" + n in pre and isinstance(old, Obj):
+                m_, sn_ = old.fields["$matrix"], pre["$frame_" + n]
+                m_.cell.term, m_.cell.nan = sn_.cell.term, sn_.cell.nan
+                self.owner_frame(n, fr).locals[n] = old
+                continue
             if type(old).__name__ == "SymMap" and "$live_" + n in pre:
                 live = pre["$live_" + n]
                 live.member, live.value, live.count = old.member, old.value, old.count
@@ -989,6 +994,10 @@ class Exec:
             self.assume(cur.length >= 0)
             return cur
         if not rebind:
+            if isinstance(cur, Obj) and cur.tag == "DataFrame" and isinstance(cur.fields.get("$matrix"), NdArr):
+                # a numeric data frame written through .iloc in the loop: its values are havocked, labels and identity stay
+                self._havoc_cell(cur.fields["$matrix"], n)
+                return cur
             if isinstance(cur, Obj):
                 raise Unsupported("havoc of object %s in loop (give loop_modifies/attributes)" % n)
             if isinstance(cur, (list, dict)):
@@ -1228,6 +1237,8 @@ class Exec:
                 return ~v
             if is_sym(v) and z3.is_int(v):
                 return -v - 1
+            if (isinstance(v, NdArr) and v.kind == "real") or isinstance(v, Fraction) or (is_sym(v) and z3.is_real(v)):
+                self.raise_("TypeError", e, "safety")      # numpy / Python: ~ is not defined on floating-point values
         raise Unsupported("unary op %s on %r" % (type(e.op).__name__, v))
 
     def ex_BoolOp(self, e, fr):
@@ -1965,5 +1976,7 @@ def snapshot_env(fr):
             if isinstance(v, Obj):
                 for fk, fv in v.fields.items():
                     snap["$attr_%s.%s" % (k, fk)] = fv
+                if v.tag == "DataFrame" and isinstance(v.fields.get("$matrix"), NdArr):
+                    snap["$frame_" + k] = v.fields["$matrix"].snapshot()       # values of a numeric data frame (written through .iloc)
         f = f.parent
     return snap
